@@ -14,7 +14,8 @@ THEOREMS = ['DG.rlist_append_inv', 'DG.rlist_setItem_inv', 'DG.rlist_delItem_inv
             'DG.closure_spec', 'DG.reduction_spec', 'DG.closure_refines', 'DG.reduction_refines', 'DG.reduction_fewest',
             'DG.closure_most', 'DG.cloVisit_spec', 'DG.redVisit_spec', 'DG.le_reads', 'DG.eq_reads', 'DG.eqv_spec',
             'DG.grafts_preserve_order', 'DG.flatten_round_eq', 'DG.dependencies_rec_reads', 'DG.depsLoop_spec',
-            'DG.depends_rec_reads', 'DG.dependsLoop_total', 'DG.dependencies_rec_returns', 'DG.depsLoop_total', 'DG.flatten_all_plain', 'DG.flatten_one_level_returns', 'DG.flatten_returns']
+            'DG.depends_rec_reads', 'DG.dependsLoop_total', 'DG.dependencies_rec_returns', 'DG.depsLoop_total', 'DG.flatten_all_plain', 'DG.flatten_one_level_returns', 'DG.flatten_returns',
+            'DG.flatten_order_preserved', 'DG.flatten_order_all_plain', 'DG.nesting_order_on_outer', 'DG.graft_acyclic']
 BUDGET = {'quick': 1200, 'thorough': 30000}
 TIME_LIMIT = {'quick': 50, 'thorough': 700}
 RULE = ('edit histories of 1-30 operations over up to 6 graph variables (SSA: copy/invert/+ create a new variable) '
@@ -279,7 +280,8 @@ def gen_dag(rng):
         ops += [['deps', 0, x], ['dependees', 0, x], ['deps_rec', 0, x]]
     ops += [['initial', 0], ['terminal', 0], ['topo', 0], ['dump', 0]]
     # the nodes are plain Python integers that have nothing to do with their position in the graph
-    return {'ops': ops, 'intnodes': rng.choice([None, None, 'id', 'rev', 'affine'])}
+    # ... or equal-but-distinct hashable objects (the graph tells nodes apart by identity, like `nodes()` and `len`)
+    return {'ops': ops, 'intnodes': rng.choice([None, None, 'id', 'rev', 'affine', 'equal'])}
 
 
 def gen_graft(rng):
@@ -561,6 +563,10 @@ def run_impl(case, run):
     def obj(x):
         if x >= NB:
             return gvars[x - NB]
+        if case.get('intnodes') == 'equal':
+            if x not in plain:
+                plain[x] = tuple([x // 2])      # a new object each time: nodes 2k and 2k+1 compare equal, are not identical
+            return plain[x]
         if case.get('intnodes'):
             return 7 * x + 3 if case['intnodes'] == 'affine' else (len(case['ops']) + 5 - x if case['intnodes'] == 'rev' else x)
         if x not in plain:
@@ -570,6 +576,8 @@ def run_impl(case, run):
     def nid(o):
         if isinstance(o, DepGraph):
             return NB + next(i for i, g in enumerate(gvars) if g is o)
+        if case.get('intnodes') == 'equal':
+            return next(x for x, p in plain.items() if p is o)
         if case.get('intnodes'):
             return (o - 3) // 7 if case['intnodes'] == 'affine' else (len(case['ops']) + 5 - o if case['intnodes'] == 'rev' else o)
         return o.k
